@@ -137,6 +137,8 @@ pub fn run_lines(sh: &mut shell::Shell,
         }
         Err(e) => {
             println_stderr!("syntax error: {:?}", e);
+            // nothing is run; the script / function / source fails
+            cr_list.push(CommandResult::from_status(0, 2));
             return cr_list;
         }
     }
